@@ -214,6 +214,7 @@ class SymBackend(BackendBase):
             self.ingredients[name] = ("idx", vals)
             return s
         f = z3.Function(name, z3.IntSort(), z3.IntSort())
+        core.INDEX_FNS[name] = (f, upper)
         k, k2 = z3.Int(name + "!q"), z3.Int(name + "!q2")
         self.c.assume(z3.ForAll([k], z3.And(f(k) >= 0, f(k) < zi(upper))))
         if strictly_increasing:
@@ -238,6 +239,7 @@ class SymBackend(BackendBase):
         ln = z3.Function("%s.%s" % (name, lengths_name), z3.IntSort(), z3.IntSort())
         self.size_fns["%s.%s" % (name, lengths_name)] = ln
         f = z3.Function(name, z3.IntSort(), z3.IntSort(), z3.IntSort())
+        core.INDEX_FNS[name] = (f, upper)
         s_, k, k2 = z3.Int(name + "!s"), z3.Int(name + "!q"), z3.Int(name + "!q2")
         self.c.assume(z3.ForAll([s_], z3.And(ln(s_) >= 0, ln(s_) <= zi(upper))))
         self.c.assume(z3.ForAll([s_, k], z3.And(f(s_, k) >= 0, f(s_, k) < zi(upper))))
@@ -285,6 +287,13 @@ class SymBackend(BackendBase):
 
     def isnan(self, x):
         return sbool(symnp.to_f(symnp._rawsc(x)).u)
+
+    def feq(self, a, b):
+        """float equality (exact in the real-arithmetic model, tolerant in mode C)"""
+        return symnp.to_f(symnp._rawsc(a)) == symnp.to_f(symnp._rawsc(b))
+
+    def fle(self, a, b):
+        return symnp.to_f(symnp._rawsc(a)) <= symnp.to_f(symnp._rawsc(b))
 
     def band(self, *xs):
         return sbool(b_and(*[raw(core.lift_bool(x)) for x in xs]))
@@ -380,7 +389,12 @@ class SymBackend(BackendBase):
     def all_cells(self, name, shape, pred):
         for idx, hy in self.cells(shape):
             tag = "" if hy or not idx else "[%s]" % ",".join(map(str, idx))
-            self.check(name + tag, pred(*idx), hy)
+            try:
+                p = pred(*idx)
+            except IndexError:
+                self.check(name + tag + ":empty-range", False, hy)
+                continue
+            self.check(name + tag, p, hy)
 
 
 def _NN(term):
@@ -498,6 +512,14 @@ class ConcreteBackend(BackendBase):
 
     def isnan(self, x):
         return x != x
+
+    def feq(self, a, b):
+        a, b = float(a), float(b)
+        return a == b or abs(a - b) <= 1e-9 * max(1.0, abs(a), abs(b))
+
+    def fle(self, a, b):
+        a, b = float(a), float(b)
+        return a <= b or abs(a - b) <= 1e-9 * max(1.0, abs(a), abs(b))
 
     def band(self, *xs):
         return all(bool(x) for x in xs)
